@@ -56,6 +56,14 @@ def _delegator(method):
     return delegated
 
 
+def _contains_strings(values):
+    """True if a list / array holds str or bytes values (which pandas would parse as
+    numbers instead of rejecting them)"""
+    return any(
+        isinstance(v, (str, bytes)) for v in np.asarray(values, dtype=object).ravel()
+    )
+
+
 def _check_values(values):
     """Validate forecasting horizon values and converts them to supported
     pandas.Index types if possible.
@@ -89,6 +97,11 @@ def _check_values(values):
 
     # convert np.array or list to pandas index
     elif isinstance(values, (list, np.ndarray)):
+        if _contains_strings(values):
+            raise TypeError(
+                "Invalid `fh`. String values are not supported, please use "
+                "integers."
+            )
         values = pd.Int64Index(values, dtype=np.int)
 
     # otherwise, raise type error
